@@ -166,11 +166,7 @@ func (e *Engine) BuildVC(fn *ssa.Function) (vc *FnVC) {
 		// postconditions are evaluated with parameter names bound to entry values
 		pfr := &frame{fn: fn, names: map[string]*ssa.Alloc{}, spec: sp, vals: fr.vals, lets: fr.lets}
 		vc.ghostExit(pfr, fin, sp, vars)
-		for nme, a := range fr.names {
-			if _, isParam := fr.params[nme]; !isParam {
-				pfr.names[nme] = a
-			}
-		}
+		// postconditions may mention parameters (entry values), results and lets only: local variables are not in scope
 		for _, c := range sp.Clauses {
 			if c.Kind != "ensures" {
 				continue
